@@ -3,18 +3,19 @@
 confirms each with seedverify.sh, runs the check against it with seedtest.sh and records the verdict in seeded/<ID>-<i>/meta.json."""
 import json, os, shutil, subprocess, sys
 pid, src = sys.argv[1], sys.argv[2]
+tag = sys.argv[3] if len(sys.argv) > 3 else ""
 V = os.path.dirname(os.path.abspath(__file__))
 for i in sorted(os.listdir(src)):
     s = os.path.join(src, i)
     if not os.path.exists(os.path.join(s, "patch.diff")):
         continue
-    dst = os.path.join(V, "seeded", f"{pid}-{i}")
+    dst = os.path.join(V, "seeded", f"{pid}-{tag}{i}")
     os.makedirs(dst, exist_ok=True)
     m = json.load(open(os.path.join(s, "meta.json")))
     for f in ["patch.diff", m.get("demo_file", "demo_test.go")]:
         shutil.copy(os.path.join(s, f), dst)
     m["author"] = "fresh sub-agent given only the property text and a scratch worktree"
-    m["demo_cmd"] = f"/verif/seedverify.sh /verif/seeded/{pid}-{i}"
+    m["demo_cmd"] = f"/verif/seedverify.sh /verif/seeded/{pid}-{tag}{i}"
     json.dump(m, open(os.path.join(dst, "meta.json"), "w"), indent=1)
     v = subprocess.run([os.path.join(V, "seedverify.sh"), dst], stdout=subprocess.PIPE, stderr=subprocess.STDOUT).stdout.decode()
     confirmed = "CONFIRMED" in v
@@ -23,7 +24,7 @@ for i in sorted(os.listdir(src)):
     lines = [l for l in t.split("\n") if l.startswith("[") or "no-failing-input-found" in l]
     m["confirmed_by"] = ("seedverify.sh: demo passes on HEAD, patched tree builds, module test suite passes, demo fails" if confirmed
                          else "NOT CONFIRMED: " + v[-400:])
-    m["check_result"] = {"cmd": f"./seedtest.sh {pid} seeded/{pid}-{i}/patch.diff", "verdict": "CAUGHT (quick tier)" if caught else "MISSED (quick tier)",
+    m["check_result"] = {"cmd": f"./seedtest.sh {pid} /verif/seeded/{pid}-{tag}{i}/patch.diff", "verdict": "CAUGHT (quick tier)" if caught else "MISSED (quick tier)",
                          "summary": lines[-2:], "no_failing_input_found": "no-failing-input-found" in t}
     json.dump(m, open(os.path.join(dst, "meta.json"), "w"), indent=1)
-    print(f"{pid}-{i}: confirmed={confirmed} caught={caught} nfi={'no-failing-input-found' in t} :: {lines[-1] if lines else t[-200:]}")
+    print(f"{pid}-{tag}{i}: confirmed={confirmed} caught={caught} nfi={'no-failing-input-found' in t} :: {lines[-1] if lines else t[-200:]}")
